@@ -2,8 +2,8 @@
 (* C40 (T): every complete execution explored by simgrid-mc is replayed event by event exactly as in HbTrace (the real    *)
 (* odpor::Execution's happens_before / racing events are compared again with the definitions, on executions the checker   *)
 (* really explored), and, on the complete execution, its normal form under the REAL logged dependency matrix is printed:  *)
-(* <<"NF", id, sequence of events>>.  The harness groups the executions of one program by normal form.                     *)
+(* a JSON line [nf: id, seq: sequence of events].  The harness groups the executions of one program by normal form.                     *)
 EXTENDS HbTrace
 
-PrintNF == (k = X.n /\ k >= 1) => PrintT(<<"NF", X.id, NormalForm(X, pred)>>)
+PrintNF == (k = X.n /\ k >= 1) => PrintT(ToJson([nf |-> X.id, seq |-> NormalForm(X, pred)]))
 =============================================================================
